@@ -1027,6 +1027,12 @@ def extract_type(src, spec, unit_rules):
         if tyt.startswith("&") and not tyt.startswith("&'"):
             ed.insert(ty[0] + 1, "'static ", "R9")
     text = ed.apply(src, a, b)
+    for tr in [x.strip() for x in spec.get("require_impl", "").split(",") if x.strip()]:
+        name = spec["path"].split("::")[-1]
+        mod = "::".join(spec["path"].split("::")[:-1])
+        ip = (mod + "::" if mod else "") + f"<{name} as {tr}>"
+        if not src.has_impl(ip):
+            raise LostAnchor(f"impl {ip} (the sidecar's trusted declaration assumes the real type implements {tr})")
     d = spec.get("derive", "")
     if d:
         for tr in [x.strip() for x in d.split(",") if x.strip()]:
